@@ -78,6 +78,13 @@ func init() {
 			st.setObj(id, &Object{Kind: OMem, Cells: cells, Site: "hash.Sum", ep: st.ep})
 			return Slice{Obj: id, Len: len(cells), Cap: len(cells)}
 		}
+		I[vrtPath+".Bound"] = func(e *Engine, st *State, th *Thread, fn *ssa.Function, a []Value, in *ssa.Call) Value {
+			n := constStr(a[0], "bound name")
+			if v, ok := e.Bounds[n]; ok {
+				return term.BVC(64, uint64(int64(v)))
+			}
+			return a[1]
+		}
 		I[vrtPath+".Reach"] = func(e *Engine, st *State, th *Thread, fn *ssa.Function, a []Value, in *ssa.Call) Value {
 			l := constStr(a[0], "reach label")
 			e.mu.Lock()
